@@ -92,6 +92,326 @@ fn do_input(chain: &Chain, kind: &str, blocks: &[Block], aux: &str) -> String {
 	}
 }
 
+
+// ---------------------------------------------------------------------------------------------
+// `crash aof`: the real DataFile<T> / AppendOnlyFile<T> (store/src/types.rs), fixed-size and
+// variable-size (size file), driven through random histories of append / rewind / discard / flush /
+// reopen with a process death at the k-th crash point of a flush or of an open (forked child armed
+// with verif_hooks::arm(k)); after every operation the durable bytes of both files and the elements
+// the file shows are printed and recomputed by Model/CrashAof.lean.
+// ---------------------------------------------------------------------------------------------
+mod aof {
+	use grin_core::ser::{self, ProtocolVersion, Readable, Reader, Writeable, Writer};
+	use grin_store::types::{AppendOnlyFile, DataFile, SizeEntry, SizeInfo};
+	use grin_store::verif_hooks;
+	use gvharness::*;
+
+	/// variable-size element: one length byte L >= 1, then L bytes
+	#[derive(Debug, Clone)]
+	pub struct Blob(pub Vec<u8>);
+	impl Writeable for Blob {
+		fn write<W: Writer>(&self, w: &mut W) -> Result<(), ser::Error> {
+			w.write_u8(self.0.len() as u8)?;
+			w.write_fixed_bytes(&self.0)
+		}
+	}
+	impl Readable for Blob {
+		fn read<R: Reader>(r: &mut R) -> Result<Blob, ser::Error> {
+			let l = r.read_u8()?;
+			if l == 0 {
+				return Err(ser::Error::CorruptedData);
+			}
+			Ok(Blob(r.read_fixed_bytes(l as usize)?))
+		}
+	}
+	/// fixed-size element of 4 bytes
+	#[derive(Debug, Clone)]
+	pub struct Fix4(pub Vec<u8>);
+	impl Writeable for Fix4 {
+		fn write<W: Writer>(&self, w: &mut W) -> Result<(), ser::Error> {
+			w.write_fixed_bytes(&self.0)
+		}
+	}
+	impl Readable for Fix4 {
+		fn read<R: Reader>(r: &mut R) -> Result<Fix4, ser::Error> {
+			Ok(Fix4(r.read_fixed_bytes(4)?))
+		}
+	}
+
+	pub enum F {
+		Var(DataFile<Blob>),
+		Fix(DataFile<Fix4>),
+	}
+
+	fn hx(b: &[u8]) -> String {
+		if b.is_empty() { "-".into() } else { hex(b) }
+	}
+
+	pub fn open(dir: &str, var: bool) -> std::io::Result<F> {
+		let v = ProtocolVersion(1);
+		if var {
+			let sf: AppendOnlyFile<SizeEntry> =
+				AppendOnlyFile::open(format!("{}/pmmr_size.bin", dir), SizeInfo::FixedSize(SizeEntry::LEN), v)?;
+			Ok(F::Var(DataFile::open(format!("{}/pmmr_data.bin", dir), SizeInfo::VariableSize(Box::new(sf)), v)?))
+		} else {
+			Ok(F::Fix(DataFile::open(format!("{}/pmmr_data.bin", dir), SizeInfo::FixedSize(4), v)?))
+		}
+	}
+
+	impl F {
+		fn append(&mut self, b: &[u8]) -> bool {
+			match self {
+				// the element's encoding is `b`: strip the length byte for Blob
+				F::Var(d) => d.append(&Blob(b[1..].to_vec())).is_ok(),
+				F::Fix(d) => d.append(&Fix4(b.to_vec())).is_ok(),
+			}
+		}
+		fn rewind(&mut self, p: u64) {
+			match self {
+				F::Var(d) => d.rewind(p),
+				F::Fix(d) => d.rewind(p),
+			}
+		}
+		fn discard(&mut self) {
+			match self {
+				F::Var(d) => d.discard(),
+				F::Fix(d) => d.discard(),
+			}
+		}
+		fn flush(&mut self) -> bool {
+			match self {
+				F::Var(d) => d.flush().is_ok(),
+				F::Fix(d) => d.flush().is_ok(),
+			}
+		}
+		fn size(&self) -> u64 {
+			match self {
+				F::Var(d) => d.size(),
+				F::Fix(d) => d.size(),
+			}
+		}
+		fn read(&self, pos1: u64) -> String {
+			match self {
+				F::Var(d) => match d.read(pos1) {
+					Some(e) => hx(&ser::ser_vec(&e, ProtocolVersion(1)).unwrap()),
+					None => "none".into(),
+				},
+				F::Fix(d) => match d.read(pos1) {
+					Some(e) => hx(&e.0),
+					None => "none".into(),
+				},
+			}
+		}
+	}
+
+	fn disk(dir: &str, var: bool) -> String {
+		let d = std::fs::read(format!("{}/pmmr_data.bin", dir)).unwrap_or_default();
+		let s = if var { std::fs::read(format!("{}/pmmr_size.bin", dir)).unwrap_or_default() } else { vec![] };
+		format!("size={} data={}", hx(&s), hx(&d))
+	}
+
+	/// `aof.flush:before-truncate[a/pmmr_size.bin]` -> `before-truncate@size`
+	fn canon(l: &str) -> String {
+		let l = l.strip_prefix("aof.").unwrap_or(l);
+		let l = l.strip_prefix("flush:").unwrap_or(l);
+		let (pt, file) = match l.find('[') {
+			Some(i) => (&l[..i], &l[i..]),
+			None => (l, ""),
+		};
+		format!("{}@{}", pt, if file.contains("pmmr_size") { "size" } else { "data" })
+	}
+
+	fn steps() -> String {
+		let v: Vec<String> = verif_hooks::take_log().iter().map(|l| canon(l)).collect();
+		format!("[{}]", v.join(","))
+	}
+
+	/// run `f` in a forked child armed to die at its k-th crash point; true = it died there
+	fn killed_at<G: FnOnce()>(k: i64, f: G) -> bool {
+		let pid = unsafe { libc::fork() };
+		if pid == 0 {
+			verif_hooks::arm(k);
+			f();
+			unsafe { libc::_exit(0) };
+		}
+		let mut status: libc::c_int = 0;
+		unsafe { libc::waitpid(pid, &mut status, 0) };
+		libc::WIFEXITED(status) && libc::WEXITSTATUS(status) == 86
+	}
+
+	/// one line; the tag (session.operation) makes every case distinct
+	fn emit(out: &mut Out, tag: &mut u64, sn: u64, op: &str, res: &str) {
+		*tag += 1;
+		out.line(&format!("crash aof @{}.{} {}", sn, tag, op), res);
+	}
+
+	pub fn run(out: &mut Out, work: &str, seed: u64, thorough: bool) {
+		let mut rng = Rng::new(seed ^ 0xa0f);
+		let sessions: u64 = if thorough { 1500 } else { 260 };
+		let mut st = std::collections::BTreeMap::<&'static str, u64>::new();
+		let mut bump = |k: &'static str| *st.entry(k).or_insert(0) += 1;
+		out.raw("crash reset");
+		for sn in 0..sessions {
+			let var = sn % 4 != 3;
+			let mut tag = 0u64;
+			let dir = format!("{}/aof/s{}/a", work, sn);
+			let _ = std::fs::remove_dir_all(&dir);
+			std::fs::create_dir_all(&dir).unwrap();
+			emit(out, &mut tag, sn, &format!("new {}", if var { "var" } else { "fix4" }), "ok");
+			let mut f: Option<F> = None;
+			// elements the harness believes are in the file + pending (only to size the read-back)
+			let mut hi: u64 = 0;
+			let nops = rng.range(6, 28);
+			let mut i = 0;
+			// most sessions start from a populated, synced file; one var session in eight is the
+			// "equal sums" history: [a b c] synced, rewind 1, append d with |d| = |b| + |c|, killed
+			// between the size file's flush and the data file's truncation
+			let mut script: Vec<String> = vec![];
+			if var && sn % 8 == 5 {
+				let lb = rng.range(1, 4) as usize;
+				let lc = rng.range(1, 4) as usize;
+				for l in [rng.range(1, 7) as usize, lb, lc] {
+					script.push(format!("a{}", l));
+				}
+				script.push("f".into());
+				script.push("r1".into());
+				script.push(format!("a{}", lb + lc + 1));
+				script.push(format!("k{}", rng.range(4, 6)));
+			} else if sn % 5 != 0 {
+				for _ in 0..rng.range(2, 8) {
+					script.push(format!("a{}", if var { rng.range(1, 7) } else { 4 }));
+				}
+				script.push("f".into());
+			}
+			script.reverse();
+			while i < nops {
+				i += 1;
+				if f.is_none() {
+					// (re)open; sometimes with a process death inside the open (the size file's rebuild)
+					if rng.chance(1, 3) {
+						let k = rng.range(1, 4) as i64;
+						let d2 = dir.clone();
+						let died = killed_at(k, move || {
+							let _ = open(&d2, var);
+						});
+						bump(if died { "killopen:killed" } else { "killopen:done" });
+						emit(out, &mut tag, sn, &format!("killopen {}", k), &format!("{} {}", if died { "killed" } else { "done" }, disk(&dir, var)));
+					}
+					verif_hooks::start_log();
+					let r = open(&dir, var);
+					let st_ = steps();
+					match r {
+						Ok(x) => {
+							if st_ != "[]" {
+								bump("open:rebuild");
+							}
+							emit(out, &mut tag, sn, "open", &format!("ok steps={} n={} {}", st_, x.size(), disk(&dir, var)));
+							hi = hi.max(x.size());
+							f = Some(x);
+						}
+						Err(_) => {
+							emit(out, &mut tag, sn, "open", &format!("err steps={}", st_));
+							break;
+						}
+					}
+					let ff = f.as_ref().unwrap();
+					let n = hi + 2;
+					let es: Vec<String> = (1..=n).map(|p| ff.read(p)).collect();
+					emit(out, &mut tag, sn, &format!("readall {}", n), &format!("[{}]", es.join(",")));
+					continue;
+				}
+				let ff = f.as_mut().unwrap();
+				let sc_op = script.pop();
+				let mut force_len = 0usize;
+				let mut force_p: Option<u64> = None;
+				let mut force_k: Option<i64> = None;
+				let c = match &sc_op {
+					Some(o) if o.starts_with('a') => {
+						force_len = o[1..].parse().unwrap();
+						0
+					}
+					Some(o) if o.starts_with('r') => {
+						force_p = o[1..].parse().ok();
+						40
+					}
+					Some(o) if o.starts_with('k') => {
+						force_k = o[1..].parse().ok();
+						90
+					}
+					Some(_) => 70,
+					None => rng.below(100),
+				};
+				if c < 38 {
+					let cnt = if force_len > 0 { 1 } else { rng.range(1, 4) };
+					for _ in 0..cnt {
+						let b: Vec<u8> = if var {
+							let l = if force_len > 0 { force_len } else { rng.range(1, 7) as usize };
+							let mut v = vec![l as u8];
+							v.extend((0..l).map(|_| rng.range(1, 256) as u8));
+							v
+						} else {
+							(0..4).map(|_| rng.range(0, 256) as u8).collect()
+						};
+						let ok = ff.append(&b);
+						bump(if ok { "append:ok" } else { "append:err" });
+						if ok {
+							hi += 1;
+						}
+						emit(out, &mut tag, sn, &format!("append {}", hx(&b)), if ok { "ok" } else { "err" });
+					}
+				} else if c < 55 {
+					// mostly inside the file, sometimes 0, sometimes beyond its end
+					let n = ff.size();
+					let p = match (force_p, rng.below(12)) {
+						(Some(p), _) => p,
+						(_, 0) => 0,
+						(_, 1) => n + rng.range(1, 4),
+						(_, 2) => n,
+						_ => rng.range(0, n + 1),
+					};
+					bump(if p > n { "rewind:beyond" } else if p == 0 { "rewind:zero" } else { "rewind:inside" });
+					ff.rewind(p);
+					hi = hi.max(p);
+					emit(out, &mut tag, sn, &format!("rewind {}", p), "ok");
+				} else if c < 62 {
+					ff.discard();
+					bump("discard");
+					emit(out, &mut tag, sn, "discard", "ok");
+				} else if c < 80 {
+					verif_hooks::start_log();
+					let ok = ff.flush();
+					let st_ = steps();
+					bump(if ok { "flush:ok" } else { "flush:err" });
+					emit(out, &mut tag, sn, "flush", &format!("{} steps={} n={} {}", if ok { "ok" } else { "err" }, st_, ff.size(), disk(&dir, var)));
+				} else if c < 95 {
+					let k = force_k.unwrap_or(rng.range(1, 12) as i64);
+					let mut x = f.take().unwrap();
+					let died = killed_at(k, move || {
+						let _ = x.flush();
+					});
+					bump(if died { "kill:killed" } else { "kill:done" });
+					emit(out, &mut tag, sn, &format!("kill {}", k), &format!("{} {}", if died { "killed" } else { "done" }, disk(&dir, var)));
+					continue;
+				} else {
+					// stop without flushing: the unsynced tail is lost
+					f = None;
+					bump("reopen");
+					continue;
+				}
+				let ff = f.as_ref().unwrap();
+				let n = hi + 2;
+				let es: Vec<String> = (1..=n).map(|p| ff.read(p)).collect();
+				emit(out, &mut tag, sn, &format!("readall {}", n), &format!("[{}]", es.join(",")));
+			}
+			drop(f);
+			let _ = std::fs::remove_dir_all(format!("{}/aof/s{}", work, sn));
+		}
+		let v: Vec<String> = st.iter().map(|(k, v)| format!("{}={}", k, v)).collect();
+		out.raw(&format!("#STAT aof sessions={} {}", sessions, v.join(" ")));
+		out.flush();
+	}
+}
+
 /// child: open the chain, arm the n-th crash point, perform the input
 fn child(args: &[String]) {
 	setup_globals();
@@ -692,6 +1012,10 @@ fn main() {
 	let mut rng = Rng::new(seed);
 	let thorough = tier_thorough();
 	let mut out = Out::stdout();
+	if args.iter().any(|a| a == "aof") {
+		aof::run(&mut out, &work, seed, thorough);
+		return;
+	}
 
 	// ---- build the block tree on the builder chain ----
 	let mut kit = Kit::new(&format!("{}/builder", work));
